@@ -52,6 +52,13 @@ def build_opspecs(texts: list[str]) -> list[dict]:
             specs.append({"op": "parse_string", "text": t, "mode": "exec"})
             specs.append({"op": "parse_string", "text": t, "mode": "exec", "py_version": [3, 8]})
             specs.append({"op": "parse_file", "text": t})
+    # version-sensitive texts under every grammar level a caller may ask for (old ones included)
+    for t in pool.KEYWORD_NAMES + [c for c in pool.CARRIERS if c.startswith(("try:", "type ", "def f[", "match ", "with (", "x = (y", "def f(a, /"))]:
+        for pv in pool.PY_VERSIONS:
+            specs.append({"op": "parse_string", "text": t, "mode": "exec", "py_version": pv})
+    for t in pool.DEEP:
+        specs.append({"op": "parse_string", "text": t, "mode": "exec"})
+        specs.append({"op": "parse_file", "text": t})
     seen = set()
     out = []
     for s in specs:
@@ -68,14 +75,47 @@ class Workload:
         self.small = [s for s in specs if len(s["text"]) <= 60]
         self.pairs = pool.PREFIX_SHARING + pool.ALIASING
         self.carriers = [s for s in specs if s["text"] in set(pool.CARRIERS)]
+        self.versioned = [s for s in specs if s.get("py_version") and s["text"] in set(pool.KEYWORD_NAMES)]
+        self.deep = [s for s in specs if s["text"] in set(pool.DEEP)]
+        self.by_len: dict[int, list[dict]] = {}
+        for s in specs:
+            if s["op"] == "parse_file" and len(s["text"]) <= 120:
+                self.by_len.setdefault(len(s["text"].encode()), []).append(s)
 
     def pick(self, rng, small_bias=0.7) -> dict:
         r = rng.random()
+        if r < 0.05 and self.versioned:
+            return dict(rng.choice(self.versioned))
+        if r < 0.07 and self.deep:
+            return dict(rng.choice(self.deep))
         if r < 0.25 and self.carriers:
             return dict(rng.choice(self.carriers))
         if r < small_bias:
             return dict(rng.choice(self.small))
         return dict(rng.choice(self.specs))
+
+    def _assign_slots(self, rng, script: list[dict], prefix: str) -> list[dict]:
+        """parse_file ops overwrite one of two per-client slots in place; sometimes the next file has the same size
+        as the one it replaces and the clock does not advance (pinned mtime)."""
+        out = []
+        last: dict[int, dict] = {}
+        pin = rng.random() < 0.5
+        for op in script:
+            if op["op"] == "parse_file":
+                op = dict(op)
+                slot = rng.randrange(2)
+                prev = last.get(slot)
+                if prev is not None and rng.random() < 0.5:
+                    same = [s for s in self.by_len.get(len(prev["text"].encode()), []) if s["text"] != prev["text"]]
+                    if same:
+                        repl = dict(rng.choice(same))
+                        repl.update({k: v for k, v in op.items() if k in ("py_version", "verbose")})
+                        op = repl
+                op["slot"] = f"{prefix}{slot}"
+                op["pin_mtime"] = pin
+                last[slot] = op
+            out.append(op)
+        return out
 
     def _add_faults(self, rng, script: list[dict], p_abort, p_cancel, p_mutate, recursion=False) -> list[dict]:
         out: list[dict] = []
@@ -149,6 +189,7 @@ class Workload:
             while len(scripts[k]) < want:
                 scripts[k].append(self.pick(rng))
             rng.shuffle(scripts[k])
+            scripts[k] = self._assign_slots(rng, scripts[k], f"t{k}_")
             scripts[k] = self._add_faults(rng, scripts[k], 0.12, 0.06, 0.15)
         est = sum(20000 + 3000 * len(op.get("text", "")) for s in scripts for op in s)
         # a slice of the runs pre-empts at bytecode granularity (about 5x the events per line)
@@ -191,6 +232,7 @@ class Workload:
                 script.append(self.pick(rng, small_bias=0.55))
         n_faults = rng.choice([0, 1, 1, 2, 3, 4])
         p = n_faults / max(1, len(script))
+        script = self._assign_slots(rng, script, "h")
         ops = self._add_faults(rng, script, p * 0.6, p * 0.25, 0.3, recursion=n_faults > 0)
         return {"engine": "history", "run": i, "ops": ops}
 
@@ -382,7 +424,7 @@ def minimise(trace: dict, golden, key: str, max_candidates: int) -> tuple[dict, 
 
 
 def _run_one(task: dict) -> dict:
-    sys.unraisablehook = lambda *a: None  # generators finalised under an injected low recursion limit
+    sys.unraisablehook = id  # a no-op that needs no Python frame (generators finalised at the recursion limit)
     if task["engine"] == "schedule":
         res = worlda.run_schedule_task(task)
     else:
